@@ -1522,7 +1522,6 @@ theorem noPh_hdr_append {t : Str} (ht : NoPh t) : NoPh (nativeHeader ++ t) := by
     exfalso
     obtain ⟨c0, P', hP, hc0⟩ := phWord_head l i
     have hnl : '\n' ∉ phWord l i := fun h => (phWord_chars l i _ h).2.2.2.2.2.2.1 rfl
-    have hH := hdr_blockFull.2.choose_spec.2.2.2.2 l i
     rw [C12.nativeHeader_split, List.append_assoc] at hc
     rcases C12.infix_append_cases hc with h | h | ⟨p1, c2, p2, e1, _, _, hh⟩
     · have := (noPh_of_noComment hdr_noComment) l i
@@ -1551,18 +1550,20 @@ theorem word_head {w : Str} (h : isSrcWord w = true) : ∃ c s, w = c :: s ∧ i
 
 /-- the raw output of the writer starts with a non-blank -/
 theorem fmt_head {d : Nat} {e : Key × Val} {r : Entries} (h : wshEs d (e :: r) = true) :
-    ∃ c s, fmtEntries .native 0 (e :: r) = c :: s ∧ isWs c = false := by
+    ∃ c, (fmtEntries .native 0 (e :: r)).head? = some c ∧ isWs c = false := by
   obtain ⟨k, v⟩ := e
   have hsp : spaces (4 * 0) = [] := rfl
   cases v with
   | dict es =>
     simp only [wshEs, Bool.and_eq_true] at h
     obtain ⟨c, s, e, hc⟩ := word_head (C01.domKey_word h.1.1)
-    exact ⟨c, _, by simp only [fmtEntries, fline, hsp, e, List.nil_append, List.cons_append], hc⟩
+    refine ⟨c, ?_, hc⟩
+    simp only [fmtEntries, fline, hsp, e, List.nil_append, List.cons_append, List.append_assoc, List.head?_cons]
   | list xs =>
     simp only [wshEs, Bool.and_eq_true] at h
     obtain ⟨c, s, e, hc⟩ := word_head (C01.domKey_word h.1.1)
-    exact ⟨c, _, by simp only [fmtEntries, fline, hsp, e, List.nil_append, List.cons_append], hc⟩
+    refine ⟨c, ?_, hc⟩
+    simp only [fmtEntries, fline, hsp, e, List.nil_append, List.cons_append, List.append_assoc, List.head?_cons]
   | leaf x =>
     simp only [wshEs, Bool.and_eq_true, Bool.or_eq_true, decide_eq_true_eq] at h
     cases hp : phOf k x with
@@ -1570,14 +1571,19 @@ theorem fmt_head {d : Nat} {e : Key × Val} {r : Entries} (h : wshEs d (e :: r) 
       obtain ⟨l, i⟩ := li
       obtain ⟨rfl, rfl, _⟩ := phOf_some hp
       obtain ⟨c, s, e, hc⟩ := phWord_head l i
-      exact ⟨c, _, by simp only [fmtEntries, fline, hsp, formatKey, phWord_format, e, List.nil_append, List.cons_append], hc⟩
+      refine ⟨c, ?_, hc⟩
+      simp only [fmtEntries, fline, hsp, formatKey, phWord_format, List.nil_append]
+      rw [e]
+      simp only [List.cons_append, List.append_assoc, List.head?_cons]
     | none =>
       rw [hp] at h
       rcases h.1 with h1 | h1
       · cases h1
       · obtain ⟨c, s, e, hc⟩ := word_head (C01.domKey_word h1.1.1)
-        exact ⟨c, _, by simp only [fmtEntries, fline, hsp, C01.formatKey_eq_keyStr h1.1.1, e, List.nil_append,
-          List.cons_append], hc⟩
+        refine ⟨c, ?_, hc⟩
+        simp only [fmtEntries, fline, hsp, C01.formatKey_eq_keyStr h1.1.1, List.nil_append]
+        rw [e]
+        simp only [List.cons_append, List.append_assoc, List.head?_cons]
 
 theorem xtoks_nil {lvl : Nat} : ∀ {D : Entries}, xtoksEs lvl D = [] → D = []
   | [], _ => rfl
@@ -1591,19 +1597,19 @@ theorem xtoks_nil {lvl : Nat} : ∀ {D : Entries}, xtoksEs lvl D = [] → D = []
 
 /-- the raw output as a layout: first gap empty, final gap one line feed -/
 theorem raw_layout {D : Entries} (h : wshEs 1 D = true) (hne : D ≠ []) :
-    ∃ t r, (([] : Str), t) :: r |>.map Prod.snd = xtoksEs 0 D ∧
+    ∃ t r, ((([] : Str), t) :: r).map Prod.snd = xtoksEs 0 D ∧
       fmtEntries .native 0 D = layX (([], t) :: r) ['\n'] ∧ okX .cov (([], t) :: r) = true := by
   rcases lays_entriesX 1 0 D h with ⟨hx, _⟩ | ⟨_, lay, hm, htxt, ok, _⟩
   · exact absurd (xtoks_nil hx) hne
   · cases D with
     | nil => exact absurd rfl hne
     | cons e D' =>
-      obtain ⟨c, s, hcs, hc⟩ := fmt_head h
+      obtain ⟨c, hcs, hc⟩ := fmt_head h
       cases lay with
       | nil =>
         rw [htxt] at hcs
-        simp only [layX, List.cons.injEq] at hcs
-        rw [← hcs.1] at hc; cases hc
+        simp only [layX, List.head?_cons, Option.some.injEq] at hcs
+        rw [← hcs] at hc; cases hc
       | cons p lay' =>
         obtain ⟨g, t⟩ := p
         have hg : g = [] := by
@@ -1611,9 +1617,9 @@ theorem raw_layout {D : Entries} (h : wshEs 1 D = true) (hne : D ≠ []) :
           | nil => rfl
           | cons y g' =>
             rw [htxt] at hcs
-            simp only [layX, List.cons_append, List.cons.injEq] at hcs
+            simp only [layX, List.cons_append, List.head?_cons, Option.some.injEq] at hcs
             simp only [okX, List.all_cons, Bool.and_eq_true] at ok
-            rw [← hcs.1, ok.1.1.1] at hc; cases hc
+            rw [← hcs, ok.1.1.1] at hc; cases hc
         subst hg
         exact ⟨t, lay', hm, htxt, ok⟩
 
@@ -1628,7 +1634,8 @@ theorem substTokT_blockTbl {i0 : Nat} {t0 : Str} {B : Tbl Str} {t : XTok} (h : i
     | true => simp [substTokT]
     | false =>
       have hj : ¬ i0 = j := by
-        simpa [isPhX] using h
+        have : ¬ j = i0 := by simpa [isPhX] using h
+        exact fun e => this e.symm
       simp [substTokT, blockTbl, Tbl.get?, hj]
 
 end DictIO.C12W
